@@ -35,3 +35,4 @@ Theorems in `E57/Proofs/Interrupted.lean`, namespace `E57.Interrupt`:
  * non-vacuity: `ex_session`, `exCheck_true`, `ex_finalize`, `finalize_succeeds`.
 -/
 import E57.Proofs.Interrupted
+import E57.Proofs.Closed
